@@ -145,7 +145,7 @@ func calculate(gc *gin.Context) error {
 		}
 	}
 	dim := preTrust.Dim
-	preTrusted := make([]bool, len(preTrust.Entries))
+	preTrusted := make([]bool, dim)
 	for _, e := range preTrust.Entries {
 		preTrusted[e.Index] = true
 	}
